@@ -109,28 +109,35 @@ Theorem C09_single : forall (A R : Type) (f : A -> res R) (args : list A) (sched
 Proof. exact @parallelize_single. Qed.
 Print Assumptions C09_single.
 
-(* COMPLETE (partial: non-empty argument list).  No task raises and no process
-   dies: whenever the call is over it has RETURNED (never an error), and the
-   list is map f args - for every ncpu >= 1, also ncpu > number of tasks, and
-   every completion order. *)
-Theorem C09_complete_partial : forall (A R : Type) (f : A -> res R) (args : list A) (ncpu : Z)
+(* COMPLETE.  No task raises and no process dies: whenever the call is over it
+   has RETURNED (never an error), and the list is map f args - for every
+   argument list (also the empty one), every ncpu >= 1, also ncpu > number of
+   tasks, and every completion order. *)
+Theorem C09_complete : forall (A R : Type) (f : A -> res R) (args : list A) (ncpu : Z)
     (sched : list action) (o : outcome R),
-  args <> [] -> (1 <= ncpu)%Z -> (forall a, exists b, f a = Ok b) ->
+  (1 <= ncpu)%Z -> (forall a, exists b, f a = Ok b) ->
   forallb (fun a => negb (is_die a)) sched = true ->
   parallelize f args ncpu sched = Some o ->
   exists r, o = Done r /\ mapM f args = Ok r.
 Proof. exact @parallelize_complete. Qed.
-Print Assumptions C09_complete_partial.
+Print Assumptions C09_complete.
 
-(* ... and refuted for the empty argument list: ProgressBar(maxval=0) raises
-   ValueError although [] would be the list of all results *)
-Theorem C09_complete_refuted :
-  exists (f : Z -> res Z) (args : list Z) (ncpu : Z) (sched : list action),
+(* zero tasks: the empty list, for every ncpu and before anything is scheduled *)
+Theorem C09_empty : forall (A R : Type) (f : A -> res R) (ncpu : Z) (sched : list action),
+  parallelize f [] ncpu sched = Some (Done []).
+Proof. exact @parallelize_empty. Qed.
+Print Assumptions C09_empty.
+
+(* regression witness: the code before fix ac3e25b (progress bar created first)
+   raised ValueError for the empty argument list *)
+Theorem C09_legacy_empty_raised :
+  exists (f : Z -> res Z) (ncpu : Z) (sched : list action),
     (forall a, exists b, f a = Ok b) /\ fault_free sched /\ (1 <= ncpu)%Z /\
-    mapM f args = Ok [] /\
-    parallelize f args ncpu sched = Some (Fail EmptyArgs).
-Proof. exact parallelize_empty_refuted. Qed.
-Print Assumptions C09_complete_refuted.
+    mapM f [] = Ok [] /\
+    par_with_legacy_empty 0 ncpu (mapM f []) (fun k pid => mapM f (chunk [] k pid)) sched
+      = Some (Fail EmptyArgs).
+Proof. exact legacy_empty_raised. Qed.
+Print Assumptions C09_legacy_empty_raised.
 
 (* DETERMINISTIC for a given seed (state s0 of the RandomStateService) and
    worker count: two calls that return, under any two schedules, return the
